@@ -74,14 +74,65 @@ Definition ty_distinct : Prop := ty_Floor <> ty_Wall /\ ty_Floor <> ty_Exit /\ t
 Lemma ty_distinct_holds : ty_distinct.
 Proof. unfold ty_distinct. repeat split; vm_compute; discriminate. Qed.
 
-Theorem empty_wf h w ra re own r : 4 <= h -> 4 <= w -> Leaf (reset_empty h w ra re own) r ->
-  exists s, r = Ok s /\ wf_check (PEmpty h w ra re) s = true.
+(* a walled room: wall on the boundary, one exit at pe, floor everywhere else *)
+Definition inner (h w : Z) (p : pos) : Prop := 1 <= fst p <= h - 2 /\ 1 <= snd p <= w - 2.
+Definition is_border (h w : Z) (q : pos) : bool := (fst q =? 0) || (fst q =? h - 1) || (snd q =? 0) || (snd q =? w - 1).
+Record room (h w : Z) (g : grid) (pe : pos) : Prop := {
+  rm_wf : wf_grid g; rm_h : gheight g = h; rm_w : gwidth g = w;
+  rm_cells : forall q, in_grid g q = true -> lookupH g q = if pos_eqb pe q then Exit 0 else if is_border h w q then Wall else Floor }.
+Lemma is_border_false h w q : inner h w q -> is_border h w q = false.
+Proof. unfold inner, is_border. intros H. rewrite !orb_false_iff, !Z.eqb_neq. lia. Qed.
+Lemma room_in_grid h w g pe q : room h w g pe -> (in_grid g q = true <-> 0 <= fst q < h /\ 0 <= snd q < w).
+Proof. intros R. rewrite in_grid_spec, (rm_h _ _ _ _ R), (rm_w _ _ _ _ R). tauto. Qed.
+Lemma room_floor h w g pe q : room h w g pe -> inner h w q -> q <> pe -> lookupH g q = Floor.
+Proof.
+  intros R Hq Hne. rewrite (rm_cells _ _ _ _ R) by (apply (room_in_grid h w g pe q R); unfold inner in Hq; lia).
+  destruct (pos_eqb pe q) eqn:E; [apply pos_eqb_iff in E; congruence|]. now rewrite is_border_false.
+Qed.
+Lemma room_exit_unique h w g pe : room h w g pe -> inner h w pe -> forall q, In q (cells_at g (is_ty ty_Exit)) <-> q = pe.
+Proof.
+  intros R Hpe q. destruct ty_distinct_holds as (D1 & D2 & D3 & D4 & D5). rewrite cells_at_In. split.
+  - intros [Iq Hq]. rewrite (rm_cells _ _ _ _ R q Iq) in Hq. destruct (pos_eqb pe q) eqn:E; [apply pos_eqb_iff in E; auto|].
+    exfalso. destruct (is_border h w q); unfold is_ty, Wall, Floor, mk0 in Hq; cbn [oty] in Hq; apply Z.eqb_eq in Hq; congruence.
+  - intros ->. assert (Ipe : in_grid g pe = true) by (apply (room_in_grid h w g pe pe R); unfold inner in Hpe; lia). split; auto.
+    rewrite (rm_cells _ _ _ _ R pe Ipe), (proj2 (pos_eqb_iff pe pe) eq_refl). unfold is_ty, Exit. cbn [oty]. apply Z.eqb_refl.
+Qed.
+Lemma room_border_walls h w g pe : room h w g pe -> inner h w pe -> border_walls g = true.
+Proof.
+  intros R Hpe. pose proof Hpe as Hpe'. unfold inner in Hpe'. unfold border_walls. apply forallb_forall. intros q Hq. apply border_In in Hq. unfold garea in Hq. cbn [ymin ymax xmin xmax] in Hq.
+  rewrite (rm_h _ _ _ _ R), (rm_w _ _ _ _ R) in Hq.
+  assert (Iq : in_grid g q = true) by (apply (room_in_grid h w g pe q R); lia).
+  rewrite (rm_cells _ _ _ _ R q Iq). destruct (pos_eqb pe q) eqn:E; [apply pos_eqb_iff in E; subst q; unfold inner in Hpe; lia|].
+  replace (is_border h w q) with true; [reflexivity|]. symmetry. unfold is_border. rewrite !orb_true_iff, !Z.eqb_eq. lia.
+Qed.
+(* any agent standing on an inner cell other than the exit makes it a well-formed `empty` state *)
+Lemma room_wf h w g pe pa oa ra re : room h w g pe -> inner h w pe -> inner h w pa -> pa <> pe ->
+  wf_check (PEmpty h w ra re) (mkS g pa oa NoneObj) = true.
+Proof.
+  intros R Hpe Hpa Hne. pose proof (room_floor h w g pe pa R Hpa Hne) as Hfloor.
+  unfold wf_check, common_ok, shape_is, agent_ok. cbn [sgrid spos sheld]. rewrite !andb_true_iff. repeat split.
+  - apply wf_gridb_spec. apply (rm_wf _ _ _ _ R).
+  - apply Z.eqb_eq. apply (rm_h _ _ _ _ R).
+  - apply Z.eqb_eq. apply (rm_w _ _ _ _ R).
+  - eapply room_border_walls; eauto.
+  - apply (room_in_grid h w g pe pa R). unfold inner in Hpa. lia.
+  - rewrite Hfloor. vm_compute. reflexivity.
+  - rewrite Hfloor. vm_compute. reflexivity.
+  - rewrite Hfloor. vm_compute. reflexivity.
+  - rewrite Hfloor. vm_compute. reflexivity.
+  - apply Z.eqb_eq. unfold countb. rewrite (cells_at_single g (is_ty ty_Exit) pe); [reflexivity|]. now apply (room_exit_unique h w g pe).
+Qed.
+
+(* EVERY outcome of `empty` (all shapes >= 4x4, all flags): a walled room with its exit on an inner cell and the agent on another inner cell;
+   without random placement the agent is at (1,1) facing RIGHT and the exit at (h-2, w-2) *)
+Theorem empty_outcome h w ra re own r : 4 <= h -> 4 <= w -> Leaf (reset_empty h w ra re own) r ->
+  exists g pe pa oa, r = Ok (mkS g pa oa NoneObj) /\ room h w g pe /\ inner h w pe /\ inner h w pa /\ pa <> pe /\
+                     (ra = false -> pa = (1, 1) /\ oa = RIGHT) /\ (re = false -> pe = (h - 2, w - 2)).
 Proof.
   intros Hh Hw HL. unfold reset_empty in HL.
   replace ((h <? 4) || (w <? 4)) with false in HL by (symmetry; apply orb_false_iff; rewrite !Z.ltb_ge; lia).
   destruct (blank_grid h w Floor ltac:(lia) ltac:(lia)) as (W0 & Eh0 & Ew0 & L0).
   set (g0 := grid_from_shape h w Floor) in *.
-  (* the boundary *)
   destruct (draw_spec (apositions_border (garea g0)) g0 Wall W0) as (g1 & E1 & W1 & Eh1 & Ew1 & L1).
   { intros p Hp. apply border_In in Hp. apply in_grid_spec. unfold garea in Hp. cbn [ymin ymax xmin xmax] in Hp. lia. }
   rewrite E1 in HL. cbn [lift bind] in HL.
@@ -89,112 +140,262 @@ Proof.
   assert (IG : forall q, in_grid g1 q = in_grid g0 q) by (intros q; unfold in_grid; now rewrite Ar).
   assert (Bg0 : forall q, In q (apositions_border (garea g0)) <-> in_grid g0 q = true /\ (fst q = 0 \/ fst q = h - 1 \/ snd q = 0 \/ snd q = w - 1)).
   { intros q. rewrite border_In, in_grid_spec. unfold garea. cbn [ymin ymax xmin xmax]. rewrite Eh0, Ew0. lia. }
-  assert (Lg1 : forall q, in_grid g0 q = true -> lookupH g1 q = if (fst q =? 0) || (fst q =? h - 1) || (snd q =? 0) || (snd q =? w - 1) then Wall else Floor).
-  { intros q Hq. rewrite L1, Hq, (L0 q Hq).
+  assert (Lg1 : forall q, in_grid g0 q = true -> lookupH g1 q = if is_border h w q then Wall else Floor).
+  { intros q Hq. rewrite L1, Hq, (L0 q Hq). unfold is_border.
     destruct ((fst q =? 0) || (fst q =? h - 1) || (snd q =? 0) || (snd q =? w - 1)) eqn:B.
     - rewrite (proj2 (memP_iff _ _)); auto. apply Bg0. split; auto. rewrite !orb_true_iff, !Z.eqb_eq in B. tauto.
     - destruct (memP q (apositions_border (garea g0))) eqn:M; auto. apply memP_iff, Bg0 in M.
       rewrite !orb_false_iff, !Z.eqb_neq in B. lia. }
-  (* the exit position pe: inside, and never the fixed agent cell *)
-  assert (EXIT : forall pe, (1 <= fst pe <= h - 2 /\ 1 <= snd pe <= w - 2) -> (ra = false -> pe <> (1, 1)) ->
-     forall k r0, (forall g2, grid_set g1 pe (Exit 0) = Ok g2 -> Leaf (k g2) r0 -> exists s, r0 = Ok s /\ wf_check (PEmpty h w ra re) s = true) ->
-     Leaf (bind (lift (grid_set g1 pe (Exit 0))) k) r0 -> exists s, r0 = Ok s /\ wf_check (PEmpty h w ra re) s = true).
-  { intros pe Hpe _ k r0 Hk HL0. assert (Ipe : in_grid g1 pe = true) by (rewrite IG; apply in_grid_spec; lia).
-    rewrite (grid_set_in g1 pe (Exit 0) W1 Ipe) in HL0. cbn [lift bind] in HL0. eapply Hk; eauto. apply grid_set_in; auto. }
-  (* the state reached once the exit is placed at pe and the agent at pa *)
-  assert (FIN : forall pe pa oa, (1 <= fst pe <= h - 2 /\ 1 <= snd pe <= w - 2) -> (1 <= fst pa <= h - 2 /\ 1 <= snd pa <= w - 2) -> pa <> pe ->
-     wf_check (PEmpty h w ra re) (mkS (gset g1 pe (Exit 0)) pa oa NoneObj) = true).
-  { intros pe pa oa Hpe Hpa Hne. assert (Ipe : in_grid g1 pe = true) by (rewrite IG; apply in_grid_spec; lia).
-    set (g2 := gset g1 pe (Exit 0)).
-    assert (W2 : wf_grid g2) by (apply wf_gset; auto).
-    assert (Eh2 : gheight g2 = h) by (unfold g2; rewrite gheight_gset; lia).
-    assert (Ew2 : gwidth g2 = w) by (unfold g2; rewrite gwidth_gset; lia).
-    assert (L2 : forall q, lookupH g2 q = if pos_eqb pe q then Exit 0 else lookupH g1 q) by (intros q; apply lookupH_gset; auto).
-    assert (IG2 : forall q, in_grid g2 q = in_grid g0 q) by (intros q; unfold g2; rewrite in_grid_gset; apply IG).
-    destruct ty_distinct_holds as (D1 & D2 & D3 & D4 & D5).
-    assert (Hfloor : lookupH g2 pa = Floor).
-    { assert (Ipa : in_grid g0 pa = true) by (apply in_grid_spec; lia).
-      rewrite L2. destruct (pos_eqb pe pa) eqn:E; [apply pos_eqb_iff in E; congruence|]. rewrite (Lg1 pa Ipa).
-      replace ((fst pa =? 0) || (fst pa =? h - 1) || (snd pa =? 0) || (snd pa =? w - 1)) with false; [reflexivity|].
-      symmetry; rewrite !orb_false_iff, !Z.eqb_neq; lia. }
-    unfold wf_check, common_ok, shape_is, agent_ok. cbn [sgrid spos sheld]. rewrite !andb_true_iff. repeat split.
-    - now apply wf_gridb_spec.
-    - now apply Z.eqb_eq.
-    - now apply Z.eqb_eq.
-    - (* unbroken wall boundary *)
-      unfold border_walls. apply forallb_forall. intros q Hq.
-      assert (Aq : garea g2 = garea g0) by (unfold garea; rewrite Eh2, Ew2, Eh0, Ew0; reflexivity). rewrite Aq in Hq. apply Bg0 in Hq. destruct Hq as [Iq Bq].
-      rewrite L2. destruct (pos_eqb pe q) eqn:E; [apply pos_eqb_iff in E; subst q; lia|].
-      rewrite (Lg1 q Iq). replace ((fst q =? 0) || (fst q =? h - 1) || (snd q =? 0) || (snd q =? w - 1)) with true; [reflexivity|].
-      symmetry. rewrite !orb_true_iff, !Z.eqb_eq. tauto.
-    - rewrite IG2. apply in_grid_spec. lia.
-    - rewrite Hfloor. vm_compute. reflexivity.
-    - rewrite Hfloor. vm_compute. reflexivity.
-    - rewrite Hfloor. vm_compute. reflexivity.
-    - rewrite Hfloor. vm_compute. reflexivity.
-    - (* exactly one exit *)
-      apply Z.eqb_eq. unfold countb. rewrite (cells_at_single g2 (is_ty ty_Exit) pe); [reflexivity|].
-      intros q. rewrite cells_at_In, IG2, L2. split.
-      + intros [Iq Hq]. destruct (pos_eqb pe q) eqn:E; [apply pos_eqb_iff in E; auto|]. rewrite (Lg1 q Iq) in Hq.
-        exfalso. destruct ((fst q =? 0) || (fst q =? h - 1) || (snd q =? 0) || (snd q =? w - 1)); unfold is_ty, Wall, Floor, mk0 in Hq; cbn [oty] in Hq; apply Z.eqb_eq in Hq; congruence.
-      + intros ->. split; [apply in_grid_spec; lia|]. rewrite (proj2 (pos_eqb_iff pe pe) eq_refl). unfold is_ty, Exit. cbn [oty]. apply Z.eqb_refl. }
-  (* now follow the code: where the exit goes, then where the agent goes *)
+  (* where the exit goes *)
   apply Leaf_bind in HL. destruct HL as [(pe & Hpe & HL)|(x & Hx & ->)].
-  2:{ (* choosing the exit position cannot fail: the candidate list is not empty *)
-      exfalso. destruct re; [|apply Leaf_Ret in Hx; discriminate].
+  2:{ exfalso. destruct re; [|apply Leaf_Ret in Hx; discriminate].
       unfold rchoice_of in Hx. apply Leaf_bind in Hx. destruct Hx as [(i & _ & Hx)|(y & Hy & _)]; [apply Leaf_Ret in Hx; discriminate|].
       apply Leaf_rchoice in Hy. destruct Hy as [[Hn _]|(i & _ & E)]; [|discriminate].
       assert (Hin : In (2, 2) (filter (fun p => ra || negb (pos_eqb p (1, 1))) (apositions_inside (garea g1)))).
       { apply filter_In. split; [apply inside_In; rewrite Ar; unfold garea; cbn [ymin ymax xmin xmax fst snd]; lia|]. cbn. apply orb_true_r. }
       destruct (filter (fun p => ra || negb (pos_eqb p (1, 1))) (apositions_inside (garea g1))); [destruct Hin | cbn in Hn; lia]. }
-  assert (Hpe_in : (1 <= fst pe <= h - 2 /\ 1 <= snd pe <= w - 2) /\ (ra = false -> pe <> (1, 1))).
-  { destruct re.
+  assert (Hpe_in : inner h w pe /\ (ra = false -> pe <> (1, 1)) /\ (re = false -> pe = (h - 2, w - 2))).
+  { unfold inner. destruct re.
     - unfold rchoice_of in Hpe. apply Leaf_bind_Ok in Hpe. destruct Hpe as (i & Hi & Hr). apply Leaf_Ret in Hr. injection Hr as ->.
       apply Leaf_rchoice in Hi. destruct Hi as [[_ Hi]|(i' & Hi' & E)]; [discriminate|]. injection E as <-.
       set (cands := filter (fun p => ra || negb (pos_eqb p (1, 1))) (apositions_inside (garea g1))) in *.
       assert (Hin : In (nthZ cands i (0, 0)) cands) by (unfold nthZ; apply nth_In; lia).
       unfold cands in Hin at 2. apply filter_In in Hin. destruct Hin as [Hi1 Hi2]. apply inside_In in Hi1. rewrite Ar in Hi1. unfold garea in Hi1. cbn [ymin ymax xmin xmax] in Hi1.
-      split; [lia|]. intros ->. cbn [orb] in Hi2. apply negb_true_iff in Hi2. intros E. rewrite E in Hi2. rewrite (proj2 (pos_eqb_iff (1, 1) (1, 1)) eq_refl) in Hi2. discriminate.
-    - apply Leaf_Ret in Hpe. injection Hpe as ->. cbn [fst snd]. split; [lia|]. intros _ E. injection E as Ea Eb. lia. }
-  destruct Hpe_in as [Hpe_in Hpe_ne].
-  eapply (EXIT pe Hpe_in Hpe_ne _ r); [|exact HL]. clear HL. intros g2 E2 HL.
-  assert (Ipe : in_grid g1 pe = true) by (rewrite IG; apply in_grid_spec; lia).
-  rewrite (grid_set_in g1 pe (Exit 0) W1 Ipe) in E2. injection E2 as <-.
+      split; [lia|]. split; [|discriminate]. intros ->. cbn [orb] in Hi2. apply negb_true_iff in Hi2. intros E. rewrite E in Hi2. rewrite (proj2 (pos_eqb_iff (1, 1) (1, 1)) eq_refl) in Hi2. discriminate.
+    - apply Leaf_Ret in Hpe. injection Hpe as ->. cbn [fst snd]. split; [lia|]. split; [|reflexivity]. intros _ E. injection E as Ea Eb. lia. }
+  destruct Hpe_in as (Hpe_in & Hpe_ne & Hpe_fix).
+  assert (Ipe : in_grid g1 pe = true) by (rewrite IG; apply in_grid_spec; unfold inner in Hpe_in; lia).
+  rewrite (grid_set_in g1 pe (Exit 0) W1 Ipe) in HL. cbn [lift bind] in HL.
+  set (g2 := gset g1 pe (Exit 0)) in *.
+  assert (R : room h w g2 pe).
+  { constructor.
+    - apply wf_gset; auto.
+    - unfold g2. rewrite gheight_gset. lia.
+    - unfold g2. rewrite gwidth_gset. lia.
+    - intros q Iq. unfold g2. rewrite (lookupH_gset g1 pe q (Exit 0) W1 Ipe). destruct (pos_eqb pe q); auto.
+      apply Lg1. unfold g2 in Iq. rewrite in_grid_gset, IG in Iq. exact Iq. }
   destruct ra.
-  - (* random agent: a floor cell of the grid with the exit in place, any heading *)
-    set (g2 := gset g1 pe (Exit 0)) in *.
-    assert (W2 : wf_grid g2) by (apply wf_gset; auto).
-    assert (L2 : forall q, lookupH g2 q = if pos_eqb pe q then Exit 0 else lookupH g1 q) by (intros q; apply lookupH_gset; auto).
-    assert (IG2 : forall q, in_grid g2 q = in_grid g0 q) by (intros q; unfold g2; rewrite in_grid_gset; apply IG).
+  - (* random agent: any floor cell, any heading *)
+    assert (W2 : wf_grid g2) by apply (rm_wf _ _ _ _ R).
     unfold floor_positions in HL. rewrite (positions_where_ok g2 (is_ty ty_Floor) (gpositions g2) W2) in HL by (intros q Hq; now apply gpositions_In).
     cbn [lift bind] in HL. set (fl := filter (fun p => is_ty ty_Floor (lookupH g2 p)) (gpositions g2)) in *.
     destruct ty_distinct_holds as (D1 & D2 & D3 & D4 & D5).
-    (* floor cells are exactly the inner cells other than the exit *)
-    assert (FL : forall q, In q fl <-> (1 <= fst q <= h - 2 /\ 1 <= snd q <= w - 2) /\ q <> pe).
-    { intros q. unfold fl. rewrite filter_In, gpositions_In, IG2, L2. split.
-      - intros [Iq Hq]. destruct (pos_eqb pe q) eqn:E; [unfold is_ty, Exit in Hq; cbn [oty] in Hq; apply Z.eqb_eq in Hq; congruence|].
-        rewrite (Lg1 q Iq) in Hq. apply in_grid_spec in Iq. rewrite Eh0, Ew0 in Iq.
-        destruct ((fst q =? 0) || (fst q =? h - 1) || (snd q =? 0) || (snd q =? w - 1)) eqn:B.
+    assert (FL : forall q, In q fl <-> inner h w q /\ q <> pe).
+    { intros q. unfold fl. rewrite filter_In, gpositions_In. split.
+      - intros [Iq Hq]. rewrite (rm_cells _ _ _ _ R q Iq) in Hq. destruct (pos_eqb pe q) eqn:E; [unfold is_ty, Exit in Hq; cbn [oty] in Hq; apply Z.eqb_eq in Hq; congruence|].
+        apply (room_in_grid h w g2 pe q R) in Iq. destruct (is_border h w q) eqn:B.
         + unfold is_ty, Wall, mk0 in Hq. cbn [oty] in Hq. apply Z.eqb_eq in Hq. congruence.
-        + rewrite !orb_false_iff, !Z.eqb_neq in B. split; [lia|]. intros ->. rewrite (proj2 (pos_eqb_iff pe pe) eq_refl) in E. discriminate.
-      - intros [Hq Hne]. assert (Iq : in_grid g0 q = true) by (apply in_grid_spec; lia). split; auto.
-        destruct (pos_eqb pe q) eqn:E; [apply pos_eqb_iff in E; congruence|]. rewrite (Lg1 q Iq).
-        replace ((fst q =? 0) || (fst q =? h - 1) || (snd q =? 0) || (snd q =? w - 1)) with false by (symmetry; rewrite !orb_false_iff, !Z.eqb_neq; lia).
-        unfold is_ty, Floor, mk0. cbn [oty]. apply Z.eqb_refl. }
+        + unfold is_border in B. rewrite !orb_false_iff, !Z.eqb_neq in B. split; [unfold inner; lia|]. intros ->. rewrite (proj2 (pos_eqb_iff pe pe) eq_refl) in E. discriminate.
+      - intros [Hq Hne]. split; [apply (room_in_grid h w g2 pe q R); unfold inner in Hq; lia|].
+        rewrite (room_floor h w g2 pe q R Hq Hne). unfold is_ty, Floor, mk0. cbn [oty]. apply Z.eqb_refl. }
     assert (NE : fl <> []).
     { destruct (pos_eqb pe (1, 1)) eqn:E.
-      - apply pos_eqb_iff in E. assert (H12 : In (1, 2) fl) by (apply FL; cbn [fst snd]; split; [lia | intros E'; rewrite <- E' in E; discriminate]). intros E0. rewrite E0 in H12. destruct H12.
-      - assert (H11 : In (1, 1) fl) by (apply FL; cbn [fst snd]; split; [lia | intros E'; rewrite <- E' in E; rewrite (proj2 (pos_eqb_iff (1, 1) (1, 1)) eq_refl) in E; discriminate]).
+      - apply pos_eqb_iff in E. assert (H12 : In (1, 2) fl) by (apply FL; unfold inner; cbn [fst snd]; split; [lia | intros E'; rewrite <- E' in E; discriminate]). intros E0. rewrite E0 in H12. destruct H12.
+      - assert (H11 : In (1, 1) fl) by (apply FL; unfold inner; cbn [fst snd]; split; [lia | intros E'; rewrite <- E' in E; rewrite (proj2 (pos_eqb_iff (1, 1) (1, 1)) eq_refl) in E; discriminate]).
         intros E0. rewrite E0 in H11. destruct H11. }
     unfold rchoice_of in HL. apply Leaf_bind in HL. destruct HL as [(pa & Hpa & HL)|(x & Hx & ->)].
     + apply Leaf_bind_Ok in Hpa. destruct Hpa as (i & Hi & Hr). apply Leaf_Ret in Hr. injection Hr as ->.
       apply Leaf_rchoice in Hi. destruct Hi as [[_ Hi]|(i' & Hi' & E)]; [discriminate|]. injection E as <-.
       assert (Hin : In (nthZ fl i (0, 0)) fl) by (unfold nthZ; apply nth_In; lia). apply FL in Hin. destruct Hin as [Hpa Hne].
       apply Leaf_bind in HL. destruct HL as [(oa & Hoa & HL)|(x & Hx & ->)].
-      * apply Leaf_Ret in HL. subst r. eexists; split; [reflexivity|]. apply FIN; auto.
+      * apply Leaf_Ret in HL. subst r. exists g2, pe, (nthZ fl i (0, 0)), oa. split; [reflexivity|]. split; [exact R|]. split; [exact Hpe_in|]. split; [exact Hpa|]. split; [exact Hne|]. split; [intros E0; discriminate E0 | exact Hpe_fix].
       * exfalso. apply Leaf_bind in Hx. destruct Hx as [(j & _ & Hx)|(y & Hy & _)]; [apply Leaf_Ret in Hx; discriminate|].
         apply Leaf_rchoice in Hy. destruct Hy as [[Hn _]|(j & _ & E)]; [vm_compute in Hn; apply Hn; reflexivity | discriminate].
     + exfalso. apply Leaf_bind in Hx. destruct Hx as [(j & _ & Hx)|(y & Hy & _)]; [apply Leaf_Ret in Hx; discriminate|].
       apply Leaf_rchoice in Hy. destruct Hy as [[Hn _]|(j & _ & E)]; [|discriminate]. destruct fl; [contradiction | cbn [length] in Hn; lia].
-  - apply Leaf_Ret in HL. subst r. eexists; split; [reflexivity|]. apply FIN; auto; cbn [fst snd]; try lia. intros E. apply (Hpe_ne eq_refl). auto.
+  - apply Leaf_Ret in HL. subst r. exists g2, pe, (1, 1), RIGHT. split; [reflexivity|]. split; [exact R|]. split; [exact Hpe_in|].
+    split; [unfold inner; cbn [fst snd]; lia|]. split; [intros E; apply (Hpe_ne eq_refl); auto|]. split; [auto | exact Hpe_fix].
+Qed.
+Theorem empty_wf h w ra re own r : 4 <= h -> 4 <= w -> Leaf (reset_empty h w ra re own) r ->
+  exists s, r = Ok s /\ wf_check (PEmpty h w ra re) s = true.
+Proof.
+  intros Hh Hw HL. destruct (empty_outcome h w ra re own r Hh Hw HL) as (g & pe & pa & oa & -> & R & Hpe & Hpa & Hne & _).
+  eexists; split; [reflexivity|]. now apply (room_wf h w g pe pa oa).
+Qed.
+
+(* ---------- sampling without replacement ---------- *)
+Lemma nodupb_NoDup l : nodupb l = true -> NoDup l.
+Proof.
+  induction l as [|x t IH]; cbn [nodupb]; [constructor|]. rewrite andb_true_iff, negb_true_iff. intros [H1 H2]. constructor; auto.
+  intros Hin. assert (E : existsb (Z.eqb x) t = true) by (apply existsb_exists; exists x; split; auto; apply Z.eqb_refl). congruence.
+Qed.
+Lemma inrange_all lo hi l : inrange lo hi l = true -> forall i, In i l -> lo <= i < hi.
+Proof. unfold inrange. rewrite forallb_forall. intros H i Hi. specialize (H i Hi). apply andb_true_iff in H. rewrite Z.leb_le, Z.ltb_lt in H. exact H. Qed.
+Lemma rchoices_leaf {A} gl (l : list A) k d x : Leaf (rchoices_of gl l k d) x ->
+  x = Err ValueError \/ exists idx, x = Ok (map (fun i => nthZ l i d) idx) /\ Z.of_nat (length idx) = k /\
+                                    (forall i, In i idx -> 0 <= i < Z.of_nat (length l)) /\ NoDup idx.
+Proof.
+  unfold rchoices_of, rsample. intros H. apply Leaf_bind in H. destruct H as [(idx & Hi & H)|(e & He & ->)].
+  - apply Leaf_Ret in H. subst x. right. exists idx. split; auto.
+    destruct ((k <? 0) || (Z.of_nat (length l) <? k) || ((Z.of_nat (length l) <=? 0) && negb (k =? 0))); [inversion Hi|].
+    inversion Hi as [| |? ? ? ans ? Hv Hl]; subst. apply Leaf_Ret in Hl. injection Hl as ->.
+    unfold valid_ans in Hv. rewrite !andb_true_iff, Z.eqb_eq in Hv. destruct Hv as [[H1 H2] H3].
+    split; auto. split; [now apply inrange_all | now apply nodupb_NoDup].
+  - left. destruct ((k <? 0) || (Z.of_nat (length l) <? k) || ((Z.of_nat (length l) <=? 0) && negb (k =? 0))).
+    + apply Leaf_Raise in He. congruence.
+    + inversion He as [| |? ? ? ans ? Hv Hl]; subst. apply Leaf_Ret in Hl. discriminate.
+Qed.
+(* the sampled elements: members of l, pairwise distinct when l is duplicate-free, as many as asked *)
+Lemma sampled_spec {A} (l : list A) (d : A) idx : NoDup l -> (forall i, In i idx -> 0 <= i < Z.of_nat (length l)) -> NoDup idx ->
+  let ps := map (fun i => nthZ l i d) idx in (forall p, In p ps -> In p l) /\ NoDup ps /\ length ps = length idx.
+Proof.
+  intros Nl Hr Ni. cbv zeta. split; [|split; [|apply map_length]].
+  - intros p Hp. apply in_map_iff in Hp. destruct Hp as (i & <- & Hi). unfold nthZ. apply nth_In. specialize (Hr i Hi). lia.
+  - induction Ni as [|i t Hn Hd IH]; cbn [map]; [constructor|]. constructor; [|apply IH; intros j Hj; apply Hr; right; auto].
+    intros Hin. apply in_map_iff in Hin. destruct Hin as (j & E & Hj). unfold nthZ in E.
+    assert (Hi := Hr i (or_introl eq_refl)). assert (Hj' := Hr j (or_intror Hj)).
+    apply (proj1 (NoDup_nth l d)) in E; auto; try lia. assert (i = j) by lia. subst. contradiction.
+Qed.
+Lemma cells_at_as g f (l : list pos) : NoDup l -> (forall q, In q (cells_at g f) <-> In q l) -> length (cells_at g f) = length l.
+Proof.
+  intros Nl H. apply Permutation.Permutation_length. apply Permutation.NoDup_Permutation; auto. apply NoDup_filter, gpositions_NoDup.
+Qed.
+
+(* floor cells of a room: the inner cells other than the exit *)
+Lemma room_floor_positions h w g pe : room h w g pe -> inner h w pe ->
+  floor_positions g = Ok (filter (fun p => is_ty ty_Floor (lookupH g p)) (gpositions g)) /\
+  forall q, In q (filter (fun p => is_ty ty_Floor (lookupH g p)) (gpositions g)) <-> inner h w q /\ q <> pe.
+Proof.
+  intros R Hpe. destruct ty_distinct_holds as (D1 & D2 & D3 & D4 & D5). split.
+  - unfold floor_positions. apply positions_where_ok; [apply (rm_wf _ _ _ _ R) | intros q Hq; now apply gpositions_In].
+  - intros q. rewrite filter_In, gpositions_In. split.
+    + intros [Iq Hq]. rewrite (rm_cells _ _ _ _ R q Iq) in Hq. destruct (pos_eqb pe q) eqn:E; [unfold is_ty, Exit in Hq; cbn [oty] in Hq; apply Z.eqb_eq in Hq; congruence|].
+      apply (room_in_grid h w g pe q R) in Iq. destruct (is_border h w q) eqn:B.
+      * unfold is_ty, Wall, mk0 in Hq. cbn [oty] in Hq. apply Z.eqb_eq in Hq. congruence.
+      * unfold is_border in B. rewrite !orb_false_iff, !Z.eqb_neq in B. split; [unfold inner; lia|]. intros ->. rewrite (proj2 (pos_eqb_iff pe pe) eq_refl) in E. discriminate.
+    + intros [Hq Hne]. split; [apply (room_in_grid h w g pe q R); unfold inner in Hq; lia|].
+      rewrite (room_floor h w g pe q R Hq Hne). unfold is_ty, Floor, mk0. cbn [oty]. apply Z.eqb_refl.
+Qed.
+
+(* placing one kind of object `o` (not a floor, wall or exit; non-blocking or not -- the agent is elsewhere) on distinct floor cells `ps` of a room *)
+Section Place.
+Variables (h w : Z) (g : grid) (pe pa : pos) (o : obj) (ps : list pos).
+Hypotheses (R : room h w g pe) (Hpe : inner h w pe) (Hpa : inner h w pa) (Hne : pa <> pe).
+Hypotheses (Hps : forall p, In p ps -> inner h w p /\ p <> pe /\ p <> pa) (Nps : NoDup ps).
+Hypotheses (Ho_exit : is_ty ty_Exit o = false).
+Lemma place_spec : exists g', draw g ps o = Ok g' /\ wf_grid g' /\ gheight g' = h /\ gwidth g' = w /\
+  (forall q, lookupH g' q = if memP q ps then o else lookupH g q) /\
+  border_walls g' = true /\ lookupH g' pa = Floor /\ in_grid g' pa = true /\
+  (forall q, In q (cells_at g' (is_ty ty_Exit)) <-> q = pe) /\
+  (forall f, (forall q, in_grid g q = true -> f (lookupH g q) = false) -> f o = true -> forall q, In q (cells_at g' f) <-> In q ps).
+Proof.
+  assert (Ips : forall p, In p ps -> in_grid g p = true).
+  { intros p Hp. destruct (Hps p Hp) as (Hi & _). apply (room_in_grid h w g pe p R). unfold inner in Hi. lia. }
+  destruct (draw_spec ps g o (rm_wf _ _ _ _ R) Ips) as (g' & E & W' & Eh & Ew & L).
+  assert (L' : forall q, lookupH g' q = if memP q ps then o else lookupH g q).
+  { intros q. rewrite L. destruct (memP q ps) eqn:M; auto. apply memP_iff in M. now rewrite (Ips q M). }
+  assert (IG : forall q, in_grid g' q = in_grid g q) by (intros q; unfold in_grid, garea; now rewrite Eh, Ew).
+  exists g'. split; [exact E|]. split; [exact W'|]. split; [rewrite Eh; apply (rm_h _ _ _ _ R)|]. split; [rewrite Ew; apply (rm_w _ _ _ _ R)|]. split; [exact L'|].
+  split; [|split; [|split; [|split]]].
+  - (* boundary untouched *)
+    pose proof (room_border_walls h w g pe R Hpe) as B. unfold border_walls in *. rewrite forallb_forall in *. intros q Hq.
+    assert (Aq : garea g' = garea g) by (unfold garea; now rewrite Eh, Ew). rewrite Aq in Hq. specialize (B q Hq). rewrite L'.
+    destruct (memP q ps) eqn:M; auto. exfalso. apply memP_iff in M. destruct (Hps q M) as (Hi & _). apply border_In in Hq.
+    unfold garea in Hq. cbn [ymin ymax xmin xmax] in Hq. rewrite (rm_h _ _ _ _ R), (rm_w _ _ _ _ R) in Hq. unfold inner in Hi. lia.
+  - rewrite L'. destruct (memP pa ps) eqn:M; [apply memP_iff in M; destruct (Hps pa M) as (_ & _ & X); congruence|]. now apply (room_floor h w g pe pa R).
+  - rewrite IG. apply (room_in_grid h w g pe pa R). unfold inner in Hpa. lia.
+  - intros q. rewrite cells_at_In, IG, L', <- (room_exit_unique h w g pe R Hpe q), cells_at_In.
+    destruct (memP q ps) eqn:M; [|tauto]. apply memP_iff in M. destruct (Hps q M) as (Hi & Hq & _). rewrite Ho_exit.
+    split; [intros [_ X]; discriminate|]. intros [Iq X]. exfalso. apply Hq. apply (room_exit_unique h w g pe R Hpe q). apply cells_at_In. auto.
+  - intros f Hf Hfo q. rewrite cells_at_In, IG, L'. destruct (memP q ps) eqn:M.
+    + apply memP_iff in M. split; [auto|]. intros _. split; [apply Ips; auto | exact Hfo].
+    + apply memP_false in M. split; [intros [Iq X]; rewrite (Hf q Iq) in X; discriminate | intros X; contradiction].
+Qed.
+End Place.
+
+Lemma common_from_place h w g' pa pe oa : wf_grid g' -> gheight g' = h -> gwidth g' = w -> border_walls g' = true -> lookupH g' pa = Floor -> in_grid g' pa = true ->
+  (forall q, In q (cells_at g' (is_ty ty_Exit)) <-> q = pe) ->
+  common_ok (mkS g' pa oa NoneObj) h w = true /\ (countb (is_ty ty_Exit) g' =? 1) = true.
+Proof.
+  intros W Eh Ew B Hfloor Ipa Hex. split.
+  - unfold common_ok, shape_is, agent_ok. cbn [sgrid spos sheld]. rewrite !andb_true_iff. repeat split; auto.
+    + now apply wf_gridb_spec.
+    + now apply Z.eqb_eq.
+    + now apply Z.eqb_eq.
+    + rewrite Hfloor. vm_compute. reflexivity.
+    + rewrite Hfloor. vm_compute. reflexivity.
+    + rewrite Hfloor. vm_compute. reflexivity.
+    + rewrite Hfloor. vm_compute. reflexivity.
+  - apply Z.eqb_eq. unfold countb. now rewrite (cells_at_single g' (is_ty ty_Exit) pe).
+Qed.
+Lemma room_no f h w g pe : room h w g pe -> f (Exit 0) = false -> f Wall = false -> f Floor = false -> forall q, in_grid g q = true -> f (lookupH g q) = false.
+Proof. intros R F1 F2 F3 q Iq. rewrite (rm_cells _ _ _ _ R q Iq). destruct (pos_eqb pe q); auto. destruct (is_border h w q); auto. Qed.
+Lemma NoDup_vacant g (pa : pos) : NoDup (filter (fun p => negb (pos_eqb p pa)) (filter (fun p => is_ty ty_Floor (lookupH g p)) (gpositions g))).
+Proof. apply NoDup_filter, NoDup_filter, gpositions_NoDup. Qed.
+
+(* EVERY outcome of `dynamic_obstacles` (all shapes >= 4x4, any number of obstacles, both flags): ValueError (the obstacles do not fit) or
+   a well-formed state with exactly the requested number of obstacles *)
+Theorem dynamic_obstacles_wf h w n ra own r : 4 <= h -> 4 <= w -> Leaf (reset_dynamic_obstacles h w n ra own) r ->
+  r = Err ValueError \/ exists s, r = Ok s /\ wf_check (PDynamicObstacles h w n ra) s = true.
+Proof.
+  intros Hh Hw HL. unfold reset_dynamic_obstacles in HL. apply Leaf_bind in HL. destruct HL as [(s & Hs & HL)|(x & Hx & ->)].
+  2:{ destruct (empty_outcome h w ra false own _ Hh Hw Hx) as (g & pe & pa & oa & E & _). discriminate. }
+  destruct (empty_outcome h w ra false own _ Hh Hw Hs) as (g & pe & pa & oa & E & R & Hpe & Hpa & Hne & _ & _). injection E as ->. cbn [sgrid spos] in HL.
+  destruct (room_floor_positions h w g pe R Hpe) as [Efl FL]. rewrite Efl in HL. cbn [lift bind] in HL.
+  set (fl := filter (fun p => is_ty ty_Floor (lookupH g p)) (gpositions g)) in *.
+  set (vacant := filter (fun p => negb (pos_eqb p pa)) fl) in *.
+  apply Leaf_bind in HL. destruct HL as [(ps & Hps & HL)|(x & Hx & ->)].
+  2:{ apply rchoices_leaf in Hx. destruct Hx as [E|(idx & E & _)]; [left; injection E as ->; reflexivity | discriminate]. }
+  apply rchoices_leaf in Hps. destruct Hps as [E|(idx & E & Hlen & Hr & Nd)]; [discriminate|]. injection E as ->.
+  destruct (sampled_spec vacant (0, 0) idx (NoDup_vacant g pa) Hr Nd) as (Hin & Nps & Lps).
+  set (ps := map (fun i => nthZ vacant i (0, 0)) idx) in *.
+  assert (Hps : forall p, In p ps -> inner h w p /\ p <> pe /\ p <> pa).
+  { intros p Hp. apply Hin in Hp. unfold vacant in Hp. apply filter_In in Hp. destruct Hp as [Hp1 Hp2]. apply FL in Hp1. destruct Hp1 as [Hi Hq].
+    split; [exact Hi|]. split; [exact Hq|]. intros ->. rewrite (proj2 (pos_eqb_iff pa pa) eq_refl) in Hp2. discriminate. }
+  destruct (place_spec h w g pe pa MovingObstacle ps R Hpe Hpa Hne Hps ltac:(vm_compute; reflexivity)) as (g' & Ed & W' & Eh & Ew & L & B & Hfloor & Ipa & Hex & Hcount).
+  rewrite Ed in HL. cbn [lift bind] in HL. apply Leaf_Ret in HL. subst r. right. eexists; split; [reflexivity|].
+  unfold set_grid. cbn [sgrid spos sori sheld]. unfold wf_check.
+  destruct (common_from_place h w g' pa pe oa W' Eh Ew B Hfloor Ipa Hex) as [C1 C2]. cbn [sgrid]. rewrite C1, C2. cbn [andb].
+  apply Z.eqb_eq. unfold countb. rewrite (cells_at_as g' (is_ty ty_MovingObstacle) ps Nps).
+  - rewrite Lps. exact Hlen.
+  - apply Hcount; [|vm_compute; reflexivity]. apply (room_no (is_ty ty_MovingObstacle) h w g pe R); vm_compute; reflexivity.
+Qed.
+
+(* EVERY outcome of `teleport` (all shapes >= 4x4): a well-formed state with one exit and exactly two telepods of one colour *)
+Theorem teleport_wf h w own r : 4 <= h -> 4 <= w -> Leaf (reset_teleport h w own) r ->
+  exists s, r = Ok s /\ wf_check (PTeleport h w) s = true.
+Proof.
+  intros Hh Hw HL. unfold reset_teleport in HL. apply Leaf_bind in HL. destruct HL as [(s & Hs & HL)|(x & Hx & ->)].
+  2:{ destruct (empty_outcome h w false false false _ Hh Hw Hx) as (g & pe & pa & oa & E & _). discriminate. }
+  destruct (empty_outcome h w false false false _ Hh Hw Hs) as (g & pe & pa & oa & E & R & Hpe & Hpa & Hne & Hfix & Hpefix). injection E as ->.
+  destruct (Hfix eq_refl) as [-> ->]. rewrite (Hpefix eq_refl) in *. clear Hfix Hpefix. cbn [sgrid] in HL.
+  (* the first orientation draw (its value is not used) never fails *)
+  apply Leaf_bind in HL. destruct HL as [(o1 & _ & HL)|(x & Hx & ->)].
+  2:{ exfalso. unfold rchoice_of in Hx. apply Leaf_bind in Hx. destruct Hx as [(j & _ & Hx)|(y & Hy & _)]; [apply Leaf_Ret in Hx; discriminate|].
+      apply Leaf_rchoice in Hy. destruct Hy as [[Hn _]|(j & _ & E)]; [cbn in Hn; lia | discriminate]. }
+  destruct (room_floor_positions h w g (h - 2, w - 2) R Hpe) as [Efl FL]. rewrite Efl in HL. cbn [lift bind] in HL.
+  set (fl := filter (fun p => is_ty ty_Floor (lookupH g p)) (gpositions g)) in *.
+  set (cand := filter (fun p => negb (pos_eqb p (1, 1))) fl) in *.
+  assert (Ncand : NoDup cand) by apply NoDup_vacant.
+  assert (C12 : In (1, 2) cand /\ In (2, 1) cand).
+  { split; apply filter_In; (split; [apply FL; unfold inner; cbn [fst snd]; split; [lia | intros E; injection E; lia] | reflexivity]). }
+  apply Leaf_bind in HL. destruct HL as [(ps & Hps & HL)|(x & Hx & ->)].
+  2:{ (* two cells can always be sampled: the candidate list has at least two elements *)
+      exfalso. unfold rchoices_of, rsample in Hx. apply Leaf_bind in Hx. destruct Hx as [(j & _ & Hx)|(y & Hy & _)]; [apply Leaf_Ret in Hx; discriminate|].
+      assert (L2 : (2 <= length cand)%nat).
+      { destruct C12 as [A B]. assert (I2 : incl [(1, 2); (2, 1)] cand) by (intros q [<-|[<-|[]]]; auto).
+        apply NoDup_incl_length in I2; [exact I2|]. constructor; [intros [E|[]]; discriminate E | constructor; [intros [] | constructor]]. }
+      replace ((2 <? 0) || (Z.of_nat (length cand) <? 2) || ((Z.of_nat (length cand) <=? 0) && negb (2 =? 0))) with false in Hy.
+      - inversion Hy as [| |? ? ? ans ? Hv Hl]; subst. apply Leaf_Ret in Hl. discriminate.
+      - symmetry. rewrite !orb_false_iff, andb_false_iff, !Z.ltb_ge, Z.leb_gt. lia. }
+  apply rchoices_leaf in Hps. destruct Hps as [E|(idx & E & Hlen & Hr & Nd)]; [discriminate|]. injection E as ->.
+  destruct (sampled_spec cand (0, 0) idx Ncand Hr Nd) as (Hin & Nps & Lps).
+  set (ps := map (fun i => nthZ cand i (0, 0)) idx) in *.
+  assert (Hps : forall p, In p ps -> inner h w p /\ p <> (h - 2, w - 2) /\ p <> (1, 1)).
+  { intros p Hp. apply Hin in Hp. unfold cand in Hp. apply filter_In in Hp. destruct Hp as [Hp1 Hp2]. apply FL in Hp1. destruct Hp1 as [Hi Hq].
+    split; [exact Hi|]. split; [exact Hq|]. intros ->. discriminate. }
+  destruct (place_spec h w g (h - 2, w - 2) (1, 1) (Telepod COL_RED) ps R Hpe Hpa Hne Hps ltac:(vm_compute; reflexivity)) as (g' & Ed & W' & Eh & Ew & L & B & Hfloor & Ipa & Hex & Hcount).
+  rewrite Ed in HL. cbn [lift bind] in HL.
+  apply Leaf_bind in HL. destruct HL as [(oa & _ & HL)|(x & Hx & ->)].
+  2:{ exfalso. unfold rchoice_of in Hx. apply Leaf_bind in Hx. destruct Hx as [(j & _ & Hx)|(y & Hy & _)]; [apply Leaf_Ret in Hx; discriminate|].
+      apply Leaf_rchoice in Hy. destruct Hy as [[Hn _]|(j & _ & E)]; [cbn in Hn; lia | discriminate]. }
+  apply Leaf_Ret in HL. subst r. eexists; split; [reflexivity|]. unfold wf_check. cbn [sgrid].
+  destruct (common_from_place h w g' (1, 1) (h - 2, w - 2) oa W' Eh Ew B Hfloor Ipa Hex) as [C1 C2]. rewrite C1, C2. cbn [andb].
+  (* exactly two telepods, both RED *)
+  assert (Htp : forall q, In q (cells_at g' (is_ty ty_Telepod)) <-> In q ps).
+  { apply Hcount; [|vm_compute; reflexivity]. apply (room_no (is_ty ty_Telepod) h w g _ R); vm_compute; reflexivity. }
+  assert (Len : length (cells_at g' (is_ty ty_Telepod)) = 2%nat) by (rewrite (cells_at_as g' _ ps Nps Htp), Lps; lia).
+  destruct (cells_at g' (is_ty ty_Telepod)) as [|a [|b [|c t]]] eqn:EC; try discriminate Len. cbn [map].
+  assert (Ha : In a ps) by (apply Htp; left; auto). assert (Hb : In b ps) by (apply Htp; right; left; auto).
+  rewrite !L, (proj2 (memP_iff a ps) Ha), (proj2 (memP_iff b ps) Hb). reflexivity.
 Qed.
